@@ -7,6 +7,7 @@ import (
 	"os"
 	"strconv"
 	"strings"
+	"sync/atomic"
 	"time"
 
 	astisub "github.com/asticode/go-astisub"
@@ -172,6 +173,7 @@ func guard(f func() string) string {
 	case out := <-done:
 		return out
 	case <-t.C:
+		atomic.AddInt32(&stuck, 1)
 		return "TIMEOUT"
 	}
 }
